@@ -9094,9 +9094,13 @@ S_<TN_, TA_, EmptyT<TA_>>::deepExitGuard(GuardControl& HFSM2_IF_LOG_STATE_METHOD
 template <typename TN_, typename TA_>
 HFSM2_CONSTEXPR(14)
 void
-S_<TN_, TA_, EmptyT<TA_>>::deepExit(PlanControl& HFSM2_IF_LOG_STATE_METHOD(control)) noexcept {
+S_<TN_, TA_, EmptyT<TA_>>::deepExit(PlanControl& control) noexcept {
 	HFSM2_LOG_STATE_METHOD(&Empty::exit,
 						   Method::EXIT);
+
+	(void) control;
+
+	HFSM2_IF_PLANS(control._core.planData.clearTaskStatus(STATE_ID));
 }
 
 #if HFSM2_PLANS_AVAILABLE()
